@@ -107,7 +107,14 @@ def cutHash (name : Bytes) (c : UInt16) : UInt64 :=
 
 /-! ### output -/
 
-def showOutcome : Outcome → String
+/-- `reqName` is the presentation name of a request served through the decoded body: an
+alias whose target is spelled exactly like the question is answered SERVFAIL on the spot
+(`additionalAnswer`), `none` for `Store.Get`, which never chases. -/
+def showOutcome (reqName : Option Bytes := none) : Outcome → String
+  | Outcome.hit [e] =>
+    match e.alias, reqName with
+    | some t, some n => if present t == some n then "loop" else s!"hit {e.id}"
+    | _, _ => s!"hit {e.id}"
   | Outcome.hit es => "hit " ++ ",".intercalate (es.map fun e => toString e.id)
   | Outcome.cut c => s!"cut {c.id}"
   | Outcome.fail _ => "fail"
@@ -320,16 +327,16 @@ def stepPipe (s : State) (w : List String) : State × String :=
       | "wire", Name.wire wn =>
         if hasECS then
           match present wn with
-          | some p => (s, showOutcome (serveMsg H W p i.qtype i.qclass i.cd cs hasECS))
+          | some p => (s, showOutcome (some p) (serveMsg H W p i.qtype i.qclass i.cd cs hasECS))
           | none => (s, "bad-op")
-        else (s, showOutcome (serveWire H W wn i.qtype i.qclass i.cd))
+        else (s, showOutcome (present wn) (serveWire H W wn i.qtype i.qclass i.cd))
       | "msg", n =>
         match n.presentation with
-        | some p => (s, showOutcome (serveMsg H W p i.qtype i.qclass i.cd cs hasECS))
+        | some p => (s, showOutcome (some p) (serveMsg H W p i.qtype i.qclass i.cd cs hasECS))
         | none => (s, "bad-op")
       | "store", n =>
         match n.presentation with
-        | some p => (s, showOutcome (storeGet H W p i.qtype i.qclass i.cd hasECS))
+        | some p => (s, showOutcome none (storeGet H W p i.qtype i.qclass i.cd hasECS))
         | none => (s, "bad-op")
       | _, _ => (s, "bad-op")
     | _, _ => (s, "bad-op")
